@@ -67,44 +67,6 @@ def run(ctx):
     _env(ctx)
 
 
-class _Arith:
-    def __init__(self, env):
-        self.env = env
-
-    def ev(self, e):
-        if isinstance(e, ast.Constant):
-            return e.value
-        if isinstance(e, ast.Name):
-            return self.env[e.id]
-        if isinstance(e, ast.Call) and ast.unparse(e.func) == "len":
-            return self.env["len(" + ast.unparse(e.args[0]) + ")"]
-        if isinstance(e, ast.BinOp):
-            a, b = self.ev(e.left), self.ev(e.right)
-            return {ast.Add: lambda: a + b, ast.Sub: lambda: a - b,
-                    ast.Mod: lambda: a % b, ast.Mult: lambda: a * b,
-                    ast.FloorDiv: lambda: a // b}[type(e.op)]()
-        if isinstance(e, ast.UnaryOp) and isinstance(e.op, ast.Not):
-            return not self.ev(e.operand)
-        if isinstance(e, ast.UnaryOp) and isinstance(e.op, ast.USub):
-            return -self.ev(e.operand)
-        if isinstance(e, ast.BoolOp):
-            vals = [self.ev(v) for v in e.values]
-            return all(vals) if isinstance(e.op, ast.And) else any(vals)
-        if isinstance(e, ast.Compare):
-            left = self.ev(e.left)
-            for op, c in zip(e.ops, e.comparators):
-                r = self.ev(c)
-                ok = {ast.Lt: left < r, ast.LtE: left <= r,
-                      ast.Gt: left > r, ast.GtE: left >= r,
-                      ast.Eq: left == r, ast.NotEq: left != r}[type(op)]
-                if not ok:
-                    return False
-                left = r
-            return True
-        raise AnalysisError(f"expression outside the arithmetic fragment: "
-                            f"{ast.unparse(e)}")
-
-
 def _identifier_chunks(ctx, f):
     prog = ctx.prog
     p_data, p_id, p_cs = f.params
@@ -135,35 +97,43 @@ def _identifier_chunks(ctx, f):
         if not rs:
             continue
         ctx.require(len(rs) == 1, f"{f.qual}: a path with several returns")
-        variants.append((v, kind_of(rs[0][1]), rs[0][1]))
-    kinds = [k for _v, k, _t in variants]
+        variants.append((v, kind_of(rs[0][1]), rs[0][1],
+                         [(vT.of(t_), o_) for t_, o_ in v.conds]))
+    kinds = [k for _v, k, _t, _c in variants]
     ctx.check(set(kinds) == {"together", "separate"}, "C10a-branch-forms", f,
               "every path either chunks features + identifier together or "
               "keeps the identifier as a chunk of its own",
               "paths return " + str([k or show(t, 100)
-                                     for _v, k, t in variants]),
+                                     for _v, k, t, _c in variants]),
               node=f.node)
     if set(kinds) != {"together", "separate"}:
         return
+    from ..chunks import Unknown as _Unknown, ev as _ev
+    LEN_D = ("call", "builtins.len", (("param", p_data),), ())
+    LEN_I = ("call", "builtins.len", (("param", p_id),), ())
     bad = []
     n_eval = 0
     for n_data, n_id, c in itertools.product(range(0, 81), range(1, 6),
                                              range(1, 26)):
         n_eval += 1
+
+        def atoms(t, n_data=n_data, n_id=n_id, c=c):
+            if t == LEN_D:
+                return n_data
+            if t == LEN_I:
+                return n_id
+            if t == ("param", p_cs):
+                return c
+            raise KeyError(t)
         taken = []
-        for v, k, _t in variants:
-            env = {f"len({p_data})": n_data, f"len({p_id})": n_id, p_cs: c}
-            ar = _Arith(env)
-            for st in v.fnode.body:
-                if isinstance(st, ast.Assign) and len(
-                        st.targets) == 1 and isinstance(
-                            st.targets[0], ast.Name):
-                    try:
-                        env[st.targets[0].id] = ar.ev(st.value)
-                    except (KeyError, AnalysisError, TypeError):
-                        pass        # not an integer quantity
-            if all(bool(ar.ev(t)) == o for t, o in v.conds):
-                taken.append(k)
+        try:
+            for v, k, _t, conds in variants:
+                if all(bool(_ev(t_, atoms)) == o_ for t_, o_ in conds):
+                    taken.append(k)
+        except (_Unknown, KeyError) as e:
+            raise AnalysisError(
+                f"{f.qual}: the branch condition is outside the evaluated "
+                f"arithmetic fragment: {str(e)[:100]}")
         ctx.require(len(taken) == 1, f"{f.qual}: {len(taken)} paths taken "
                     f"for (features, identifier width, chunk size) = "
                     f"{(n_data, n_id, c)}")
@@ -178,7 +148,7 @@ def _identifier_chunks(ctx, f):
                                           "violations": len(bad)}
     guard = " / ".join(
         " and ".join(s_ for t, o in v.conds for s_ in cond_strings(t, o))
-        for v, k, _t in variants if k == "together")
+        for v, k, _t, _c in variants if k == "together")
     ctx.check(not bad, "C10a-identifier-in-one-chunk", f,
               f"for all {n_eval} (features, identifier width, chunk size) "
               "triples the identifier columns end up in a single column "
